@@ -960,3 +960,133 @@ def qlink_accepts(req):
         return "R"
     q = request_to_qlink_1_0(req)
     return type(q).__name__
+
+
+# ---------------------------------------------------------------------- C11: multi-call host programs
+# Several create/recv calls over two sockets; the link layer may be AHEAD of the application (responses
+# arrive before the matching instruction ran) and interleaves the two sockets arbitrarily, keeping the
+# order within one (remote node, socket, role).
+
+
+def gen_program_case(rng):
+    ncalls = rng.randint(2, 4)
+    keytype = {}
+    calls = []
+    kbudget = 6
+    for j in range(ncalls):
+        socket = rng.randrange(2)
+        role = rng.choice(["recv", "recv", "create"])
+        ty = keytype.setdefault((socket, role), rng.choice(["K", "M", "M"]))
+        number = rng.randint(1, 2)
+        if ty == "K":
+            if kbudget < number:
+                continue
+            kbudget -= number
+        calls.append({"socket": socket, "role": role, "tp": ty, "number": number,
+                      "flush": rng.random() < 0.8, "phi": rng.random() < 0.5})
+    if not calls:
+        calls.append({"socket": 0, "role": "recv", "tp": "M", "number": 1, "flush": True, "phi": True})
+    calls[-1]["flush"] = True
+    # responses per key, in request order; global order = random merge
+    perkey = {}
+    nresp = 0
+    for c in calls:
+        for _ in range(c["number"]):
+            perkey.setdefault("%d/%s" % (c["socket"], c["role"]), []).append(nresp)
+            nresp += 1
+    queues = {k: list(v) for k, v in perkey.items()}
+    order = []
+    while any(queues.values()):
+        k = rng.choice([k for k, v in queues.items() if v])
+        order.append(queues[k].pop(0))
+    return {"calls": calls, "order": order, "early": rng.choice([0, 0, 1, 2, 3]),
+            "batches": [rng.choice([1, 1, 2, 3]) for _ in range(nresp + 2)], "rseed": rng.randrange(1 << 30)}
+
+
+def run_program_case(pc):
+    """Returns {"stuck", "raised", "checks": [(what, got, want)]} — every handle of every completed call
+    against the response the link layer generated for that pair (the i-th of its queue)."""
+    import random as _random
+    rrng = _random.Random(pc["rseed"])
+    ex = fresh_world()
+    calls = pc["calls"]
+    # build the responses: index -> RespSpec, in per-key request order
+    resps = {}
+    idx = 0
+    for c in calls:
+        keep = c["tp"] == "K"
+        for _ in range(c["number"]):
+            r = RespSpec(idx, "K" if keep else "M", 1, c["socket"], 1 if c["role"] == "recv" else 0, 60 + idx,
+                         rrng)
+            r.seq = rrng.randrange(1 << 16)
+            r.goodness = rrng.randrange(1 << 20)
+            r.gtime = rrng.randrange(1 << 20)
+            resps[idx] = r
+            idx += 1
+    todo = list(pc["order"])
+    batches = list(pc["batches"])
+
+    def deliver(n):
+        k = 0
+        while todo and k < n:
+            ex._handle_epr_response(resps[todo.pop(0)].real())
+            k += 1
+        return k > 0
+
+    def responder(ex_):
+        return deliver(batches.pop(0) if batches else 1)
+
+    socks = [EPRSocket(REMOTE_NAME, epr_socket_id=s, remote_epr_socket_id=s) for s in range(2)]
+    conn = InProcConnection(ex, responder, epr_sockets=socks, max_qubits=8)
+    out = {"stuck": False, "raised": None, "checks": [], "completed": 0}
+    results = []
+    try:
+        deliver(pc["early"])        # the remote side is ahead: nothing has been requested yet
+        first = 0
+        for c in calls:
+            s = socks[c["socket"]]
+            qubits = handles = None
+            if c["role"] == "create":
+                if c["tp"] == "K":
+                    qubits, handles = s.create_keep_with_info(number=c["number"])
+                else:
+                    handles = s.create_measure(number=c["number"])
+            else:
+                if c["tp"] == "K":
+                    qubits, handles = s.recv_keep_with_info(number=c["number"], expect_phi_plus=c["phi"])
+                else:
+                    handles = s.recv_measure(number=c["number"], expect_phi_plus=c["phi"])
+            results.append((c, first, qubits, handles))
+            first += c["number"]
+            if c["flush"]:
+                conn.flush()
+                if conn.stuck:
+                    out["stuck"] = True
+                    break
+    except Exception as e:  # noqa
+        out["raised"] = "%s: %s" % (type(e).__name__, e)
+        return out
+    if out["stuck"]:
+        return out
+    for c, first, qubits, handles in results:
+        out["completed"] += 1
+        for i in range(c["number"]):
+            want = resps[first + i].real()       # responses were numbered in per-key request order
+
+            def fld(name):
+                v = getattr(want, name)
+                return v.value if hasattr(v, "value") else v
+            h = handles[i]
+            if isinstance(h, BE.EprKeepResult):
+                spec = {"qubit_id": "logical_qubit_id", "remote_node_id": "remote_node_id",
+                        "generation_duration": "goodness", "raw_bell_state": "bell_state"}
+            else:
+                spec = {"raw_measurement_outcome": "measurement_outcome", "remote_node_id": "remote_node_id",
+                        "generation_duration": "goodness", "raw_bell_state": "bell_state"}
+            for attr, f in spec.items():
+                out["checks"].append(("call %s pair %d %s" % (c, i, attr), getattr(h, attr).value, fld(f)))
+            if qubits is not None:
+                info = qubits[i].entanglement_info
+                for f, v in zip(info._fields, info):
+                    out["checks"].append(("call %s qubit %d entanglement_info.%s" % (c, i, f), v.value, fld(f)))
+    return out
